@@ -1,27 +1,31 @@
 #!/bin/bash
-# usage: benign.sh [dir...] — run every check against every behaviour-preserving variant; any alarm is a false alarm
-cd /verif
-mkdir -p /tmp/bn
+# usage: [OUT=file] benign.sh [dir...] — run every check against every behaviour-preserving variant; any alarm is a false alarm
+ROOT=$(cd "$(dirname "$0")/.." && pwd)
+cd $ROOT
+OUT=${OUT:-$ROOT/benign/result.tsv}
+BN=/tmp/bn$$
+mkdir -p $BN
+[ -x engine/egfacts/target/release/egfacts ] || (cd engine/egfacts && CARGO_NET_OFFLINE=true cargo +nightly build --release --offline >/dev/null 2>&1)
 IDS=$(python3 -c "import json;print(' '.join(c['property_id'] for c in json.load(open('MANIFEST.json'))['checks']))")
 DIRS=${@:-$(ls -d benign/*/)}
-echo $DIRS | tr ' ' '\n' | awk "{print NR%6, \$0}" > /tmp/bn/jobs.txt
-: > /tmp/bn/result.tsv
+echo $DIRS | tr ' ' '\n' | awk "{print NR%6, \$0}" > $BN/jobs.txt
+: > $BN/result.tsv
 for w in 0 1 2 3 4 5; do
- ( grep "^$w " /tmp/bn/jobs.txt | while read _ job; do
+ ( grep "^$w " $BN/jobs.txt | while read _ job; do
      name=$(basename $job)
-     WT=/tmp/bn/wt$w; rm -rf $WT; git -C /repo worktree prune; git -C /repo worktree add --detach $WT HEAD >/dev/null 2>&1
+     WT=$BN/wt$w; rm -rf $WT; git -C /repo worktree prune; git -C /repo worktree add --detach $WT HEAD >/dev/null 2>&1
      cp /repo/Cargo.lock $WT/ 2>/dev/null
-     ( cd $WT && (git apply /verif/$job/patch.diff 2>/dev/null || git apply --3way /verif/$job/patch.diff >/dev/null 2>&1) ) || { echo -e "$name\tPATCH-FAILED" >> /tmp/bn/result.tsv; git -C /repo worktree remove --force $WT; continue; }
+     ( cd $WT && (git apply $ROOT/$job/patch.diff 2>/dev/null || git apply --3way $ROOT/$job/patch.diff >/dev/null 2>&1) ) || { echo -e "$name\tPATCH-FAILED" >> $BN/result.tsv; git -C /repo worktree remove --force $WT; continue; }
      for c in $IDS; do
-        out=$(EG_REPO=$WT VERIF_EVIDENCE_DIR=/tmp/bn/ev$w ./check $c 2>&1); rc=$?
+        out=$(EG_REPO=$WT VERIF_EVIDENCE_DIR=$BN/ev$w ./check $c 2>&1); rc=$?
         if [ $rc -ne 0 ]; then
-           echo "$out" | grep "^rule=" | sed "s/^rule=\([^ ]*\) key=\([^ ]*\) at=\([^ ]*\) .*why=\(.*\)/$name\t$c\t\2\t\4/" | cut -c1-420 >> /tmp/bn/result.tsv
+           echo "$out" | grep "^rule=" | sed "s/^rule=\([^ ]*\) key=\([^ ]*\) at=\([^ ]*\) .*why=\(.*\)/$name\t$c\t\2\t\4/" | cut -c1-420 >> $BN/result.tsv
         fi
      done
-     echo -e "$name\tDONE" >> /tmp/bn/result.tsv
+     echo -e "$name\tDONE" >> $BN/result.tsv
      git -C /repo worktree remove --force $WT
    done ) &
 done
 wait
-sort /tmp/bn/result.tsv > /verif/benign/result.tsv
-rm -rf /tmp/bn
+sort $BN/result.tsv > $OUT
+rm -rf $BN
